@@ -6,6 +6,7 @@ import (
 	"regexp"
 	"sort"
 	"strings"
+	"time"
 
 	"verif/harness/core"
 	"verif/harness/gen"
@@ -584,6 +585,37 @@ func runC07(c *core.Ctx) {
 				viol("R8 stats vs headings/--today", bad, stArgs, stRes, prArgs, prRes)
 			} else {
 				ok("R8")
+			}
+		}
+
+		// R8b: day distances when headings and --today carry a time of day: whole days elapsed between the two instants
+		if i%6 == 0 {
+			lay := "2006/01/02 15:04"
+			d1 := gen.Date{Y: 2021, M: 1 + r.Intn(12), D: 1 + r.Intn(28)}
+			gap, ahead := r.Intn(40), r.Intn(40)
+			h1, h2, h3 := r.Intn(24*60), r.Intn(24*60), r.Intn(24*60)
+			t1 := d1.Time().Add(time.Duration(h1) * time.Minute)
+			t2 := d1.AddDays(gap).Time().Add(time.Duration(h2) * time.Minute)
+			if t2.Before(t1) {
+				t2 = t1
+			}
+			t3 := d1.AddDays(gap + ahead).Time().Add(time.Duration(h3) * time.Minute)
+			if t3.Before(t2) {
+				t3 = t2
+			}
+			tlog := fmt.Sprintf("%s:\n  a: 1\n%s:\n  b: 2\n", t1.Format(lay), t2.Format(lay))
+			srv.Write(map[string]string{"timed.yaml": tlog})
+			targs := []string{"--no-color", "-d", "food.yaml", "-l", "timed.yaml", "--date-format", lay, "--today", t3.Format(lay), "stats"}
+			tres := srv.App1(targs, nil)
+			c.Eval(1)
+			st, _ := obs.ParseStats(tres.Out)
+			wf := fmt.Sprintf("%s (%d days ago)", t1.Format(lay), int(t3.Sub(t1).Hours()/24))
+			wl := fmt.Sprintf("%s (%d days ago)", t2.Format(lay), int(t3.Sub(t2).Hours()/24))
+			if tres.Exit != 0 || st.Fields["First record"] != wf || st.Fields["Last record"] != wl {
+				c.Violation("R8b stats day distances with times of day", fmt.Sprintf("stats First/Last record %q / %q, want %q / %q (--today %s)", st.Fields["First record"], st.Fields["Last record"], wf, wl, t3.Format(lay)),
+					caseDoc{Files: map[string]string{"food.yaml": w.BookText, "timed.yaml": tlog}, Args: targs, Observed: resDoc(tres)})
+			} else {
+				ok("R8b")
 			}
 		}
 
